@@ -43,6 +43,7 @@ type Rule struct {
 
 // Ctx collects obligations while rules run.
 type Ctx struct {
+	selfTest   *Prog // set while a rule runs on its synthetic positive example
 	P          *Prog
 	rule       *Rule
 	Obls       []Obligation
